@@ -115,6 +115,8 @@ def shape_validatePointer : List String := [
   ">return ptr, nil",
   "if sameValue(reflect.ValueOf(&v).Elem(), reflect.ValueOf(ptr).Elem())",
   ">return ptr, nil",
+  "if sameEntries(reflect.ValueOf(&v).Elem(), reflect.ValueOf(ptr).Elem())",
+  ">return ptr, nil",
   "return &v, nil"
 ]
 
@@ -166,7 +168,8 @@ def clauseOf (fn : String) (i : Nat) : String :=
   | "validatePointer", 7 => "firstPassFrom / firstPassC afterwards; its value is the result when it has no issue and made a new pointer"
   | "validatePointer", 9 => "overwrite attached, pass over the pointer not taken: the regular result, written through the pointer (value = Run.val of the regular pass)"
   | "validatePointer", 11 => "no overwrite (since /repo e584c0e): the validator handed back what the pointer refers to: the caller's pointer is the result, nothing is stored (value = Run.val)"
-  | "validatePointer", 13 => "no overwrite, the validator built a new value: a pointer of its own to the regular result (value = Run.val)"
+  | "validatePointer", 13 => "no overwrite (since /repo 3302475): the validator built a map holding exactly the caller's entries: the caller's pointer is the result, nothing is stored (value = Run.val; C10 compares values, C15 the pointer identity)"
+  | "validatePointer", 15 => "no overwrite, the validator built a new value: a pointer of its own to the regular result (value = Run.val)"
   | _, _ => "bookkeeping (no clause of the model depends on it directly)"
 
 def functions : List String := ["executeChecks", "CheckAborted", "RunChecksOnValue", "ApplyChecks", "hasOverwriteCheck", "validatePointerWithOverwrite", "validatePointer", "validateWithChecks"]
